@@ -72,13 +72,56 @@ class Kinds:
             return self._elements(seq.generators[0].iter, st, depth)  # a filtered copy of the sequence
         if isinstance(seq, ast.Call) and isinstance(seq.func, ast.Name) and seq.func.id == "collect_ast" and len(seq.args) == 2 and isinstance(seq.args[1], ast.Constant) and seq.args[1].value in self.sch.kinds:
             return frozenset({seq.args[1].value})  # ngo.utils.ast.collect_ast(x, "Kind") returns nodes of that kind
+        if isinstance(seq, ast.Name) and depth < 8:
+            # a local list that is only ever filled by append(): its elements are what was appended
+            acc = self._accumulated(seq.id, st, depth)
+            if acc is not None:
+                return acc
+        if isinstance(seq, ast.BinOp) and isinstance(seq.op, ast.Add):
+            left, right = self._elements(seq.left, st, depth + 1), self._elements(seq.right, st, depth + 1)
+            if left is not None and right is not None:
+                return left | right
+        if isinstance(seq, (ast.List, ast.Tuple)) and seq.elts:
+            parts = [self._of(e, st, depth + 1) for e in seq.elts]
+            if all(p is not None for p in parts):
+                return frozenset().union(*parts)  # type: ignore[arg-type]
         if isinstance(seq, ast.Attribute):
             parent = self._of(seq.value, st, depth + 1)
             if parent:
                 child = self.sch.child_kinds(parent, seq.attr)
                 if child is not None and child[1] == "*" and child[0]:
                     return child[0]
+            if not parent and seq.attr == "arguments" and isinstance(seq.value, ast.Attribute) and seq.value.attr == "symbol":
+                # `<atom>.symbol.arguments`: whatever the atom is, a symbol that HAS arguments is a Function: its arguments are terms
+                f = self.sch.field("Function", "arguments")
+                if f is not None:
+                    return f.kinds
         return None
+
+    def _accumulated(self, name: str, st: State, depth: int) -> Optional[frozenset[str]]:
+        func = self.it.func.node
+        inits = [n for n in ast.walk(func) if isinstance(n, (ast.Assign, ast.AnnAssign)) and isinstance(getattr(n, "target", None) or (n.targets[0] if len(n.targets) == 1 else None), ast.Name)
+                 and (getattr(n, "target", None) or n.targets[0]).id == name]  # type: ignore[union-attr]
+        if len(inits) != 1 or not (isinstance(inits[0].value, ast.List) and not inits[0].value.elts):
+            return None
+        out: frozenset[str] = frozenset()
+        seen = False
+        for node in ast.walk(func):
+            if isinstance(node, ast.Call) and isinstance(node.func, ast.Attribute) and isinstance(node.func.value, ast.Name) and node.func.value.id == name:
+                if node.func.attr == "append" and len(node.args) == 1:
+                    states = self.it.states(node) or [st]
+                    for s in states:
+                        k = self._of(self.it.expand(node.args[0], s), s, depth + 2)
+                        if k is None:
+                            return None
+                        out |= k
+                    seen = True
+                elif node.func.attr in ("extend", "insert", "__setitem__", "pop", "remove", "sort", "reverse", "clear"):
+                    if node.func.attr in ("extend", "insert"):
+                        return None
+            elif isinstance(node, (ast.Assign, ast.AugAssign)) and any(isinstance(t, ast.Subscript) and isinstance(t.value, ast.Name) and t.value.id == name for t in (node.targets if isinstance(node, ast.Assign) else [node.target])):
+                return None
+        return out if seen else None
 
     def mult(self, expr: ast.expr, st: State) -> Optional[tuple[str, bool, frozenset[str]]]:
         """for an attribute access X.f: (multiplicity over the known kinds of X, field defined for all of them, kinds of X)"""
